@@ -21,7 +21,8 @@ REQUIRED = ["event.construct", "event.write", "event.write-scenario", "event.ski
             "other-writer-constructed-in-between", "other-format-in-between", "identically-constructed-second-writer",
             "reference-read-back-ok", "target.file-of-previous-write.pb", "target.file-of-previous-write.xml",
             "target.existing-longer-file.pb", "target.existing-longer-file.xml", "skip.default-file-name.xml",
-            "skip.default-file-name.pb", "skip.write_scenario_to_file"]
+            "skip.default-file-name.pb", "skip.write_scenario_to_file", "skip.write_scenario_to_file.xml",
+            "skip.write_scenario_to_file.pb"]
 EXHAUSTIVE = {"quick": "all valid event histories of length <= 3 over 2 writers x 4 configuration pairs",
               "thorough": "all valid event histories of length <= 4 over 2 writers x 8 configuration pairs"}
 ASSUMPTIONS = ["the reference is the output of a fresh writer in a clean child process with the same PYTHONHASHSEED "
@@ -183,8 +184,11 @@ def run(ctx):
                         if default_name:
                             os.chdir(wd)
                         with contextlib.redirect_stdout(_io.StringIO()):
-                            if skip_scenario_only and fmt == "pb":
+                            if skip_scenario_only and (fmt == "pb" or not default_name):
+                                # (XML's write_scenario_to_file derives a default name WITHOUT suffix: with the default name
+                                # it would address another file, so that combination is exercised for protobuf only)
                                 ctx.feature("skip.write_scenario_to_file")
+                                ctx.feature("skip.write_scenario_to_file." + fmt)
                                 w.write_scenario_to_file(None if default_name else path, OverwriteExistingFile.SKIP)
                             else:
                                 w.write_to_file(None if default_name else path, OverwriteExistingFile.SKIP)
